@@ -8,6 +8,9 @@
 (*   R  ret avail       matching read: returned value, Available() after   *)
 (*   End                all elements read                                  *)
 (*   LE op in ret       little-endian helper applied to the bytes `in`     *)
+(*   Static op v out back   static helpers ToBytesX(v) = out, ToX(out) = back *)
+(*   W and LE may carry `ref`: the output of the harness's transliteration *)
+(*   of Enc/DecLE used by the pattern sweeps; it must equal the spec's.    *)
 (***************************************************************************)
 EXTENDS DataX, TraceLib
 
@@ -25,6 +28,7 @@ TraceW == /\ Step("W")
                /\ W(e.op, e.v)
                /\ e.out = Enc(e.op, e.v)        \* byte for byte the reference encoder
                /\ e.size = written'             \* Size() = bytes produced
+               /\ (Has(e, "ref") => e.ref = Enc(e.op, e.v))   \* the sweep's transliteration agrees with the spec
 
 TraceOpen == Step("Open") /\ Open
 
@@ -42,12 +46,23 @@ TraceLE == /\ Step("LE")
            /\ LET e == Trace[l] IN
                 /\ Len(e.in) = LEWidth[e.op]
                 /\ e.ret = DecLE(e.op, e.in)
+                /\ (Has(e, "ref") => e.ref = DecLE(e.op, e.in))
            /\ UNCHANGED vars
+
+\* the static helpers ToBytesX / ToX on one value: same bytes, same value back
+TraceStatic == /\ Step("Static")
+               /\ LET e == Trace[l] IN
+                    /\ InRange(e.op, e.v)
+                    /\ e.out = Enc(e.op, e.v)
+                    /\ Dec(e.op, e.out, 1).ok
+                    /\ e.back = Dec(e.op, e.out, 1).v
+                    /\ e.back = Canon(e.op, e.v)
+               /\ UNCHANGED vars
 
 \* every invariant of DataX is re-evaluated on the state after each event
 InvAll == SizeOK /\ ReadBack /\ ExactConsumption /\ NoStuck
 
-TraceNext == (TraceReset \/ TraceW \/ TraceOpen \/ TraceR \/ TraceEnd \/ TraceLE) /\ InvAll'
+TraceNext == (TraceReset \/ TraceW \/ TraceOpen \/ TraceR \/ TraceEnd \/ TraceLE \/ TraceStatic) /\ InvAll'
 
 TraceSpec == TraceInit /\ [][TraceNext]_tvars
 
